@@ -285,6 +285,12 @@ INV = [
 INNER = [("s_is_rest", "is_sub(s, src, offset as int, blen(src) as int), offset < end_offset")]
 
 
+import findings  # noqa: E402
+BOUNDED.append({"name": "position_finding:parse_error_of_an_imported_file", "kind": "check-json", "props": ["C23"], "n_inputs": 1, "filename": "main.gdn",
+                "input": findings.C23_IMPORT_MAIN, "extra_files": {"lib.gdn": findings.C23_IMPORT_LIB}, "expect": {"py": findings.C23_IMPORT_ORACLE},
+                "bound": "one project: a one-line main.gdn that imports a file with a parse error on its line 8: every position `garden check --json main.gdn` reports lies inside main.gdn"})
+
+
 def build(tier):
     u = UnitFile("lex")
     u.raw(common.HEADER)
